@@ -216,6 +216,14 @@ func callPaths(r *lib.Run) {
 			return false
 		}
 		pb, _ := (&portalwire.Ping{EnrSeq: 1, PayloadType: pingext.ClientInfo, Payload: plb}).MarshalSSZ()
+		// The node processes a ping on a goroutine of its own after answering it, and the only event the monitor can wait
+		// for is the cache showing the reported value. A report of the value the cache already shows would be
+		// "acknowledged" at once while its processing is still pending, and could then land after (and undo) the next,
+		// different report. So a peer never reports the radius the node already has for it.
+		if got, ok := node.P.VerifRadiusCacheGet(a.ID()); ok && string(got) == string(rb) {
+			r.Count("gossip_path_radius_unchanged_not_reported_again", 1)
+			return true
+		}
 		if _, err := a.Talk(node.Self(), string(portalwire.History), append([]byte{portalwire.PING}, pb...)); err != nil {
 			return false
 		}
